@@ -405,6 +405,10 @@ def check(args):
         rc = 2
     total_runs = sum(a["runs"] for a in per_engine.values())
     total_exec = sum(a["executions"] for a in per_engine.values())
+    from importlib.util import find_spec
+
+    spec = find_spec("cogent3")
+    print(f"cogent3 under test: {os.path.dirname(spec.origin) if spec and spec.origin else '?'}")
     print(f"{prop} tier={tier} seed={seed} runs={total_runs} executions={total_exec} "
           f"unlisted_violation_classes={len(unlisted)} known_observed={len(observed_known)} "
           f"wall={time.time() - t0:.1f}s exit={rc}")
